@@ -12,7 +12,7 @@ def run(ctx):
     ctx.explanation = ('Structural rules over http_request.cpp, multipart_parser.h and http_file.cpp: every allocation sized by the declared length is dominated by a limit test (and the sign test); '
                        'the switch over the parser result is exhaustive with the right status per result; the size check runs on both the partial and the ready edge; temp files are removed by the destructor; '
                        'a failed partial boundary match is re-emitted from the boundary string with the matched length read before it is reset, and each input byte is either counted or written, never both.')
-    P = load(ctx, ['src/http_request.cpp', 'src/http_file.cpp'])
+    P = load(ctx, ['src/http_request.cpp', 'src/http_file.cpp', 'src/http_content_filter.cpp'])
     R1 = ctx.rule('C12.R1', 'on_content_start: allocation / parser creation only past the limit comparison for the content type and the sign test')
     R2 = ctx.rule('C12.R2', 'on_content_progress: parser results are handled exhaustively; ready only when read_size == content_length; premature / late eof is 400')
     R3 = ctx.rule('C12.R3', 'non-file field size is checked on both the content_partial and the content_ready edge before the filter is told')
@@ -483,6 +483,70 @@ def run(ctx):
     ins = [i for i in cps.calls() if (cps.callee(i) or '').endswith('operator<<') and q.param_by_index(cps, 1) in cps.subtree_refs(i) and rd and cps.contains(i, rd[0])]
     ctx.check((len(rd) == 1 and len(ins) == 1 and q.always_before_exit(cps, ins)) or (direct_copy and not [i for i in P.fns.values() if any(g_.bcallee(c_) == FI + 'copy_stream' for g_ in [i] for c_ in g_.calls())]), R7, 'copy_stream:whole-source-buffer-into-the-target', 'copy_stream does not stream the source\'s buffer into the target', cps.where)
     ctx.floor(R7, 5)
+    # ---------------- R9 the configured limits are the ones enforced
+    R9 = ctx.rule('C12.R9', 'the limits compared in on_content_start are the configured ones: content_limits(cached_settings) takes each limit from the settings entry of the same name, the two limits configured in KB '
+                            '(content_length_limit, multipart_form_data_limit - config.js documents the unit) are scaled by exactly 1024 and file_in_memory_limit (bytes) is taken as is; cached_security reads each entry under its '
+                            'own key "security.<name>"; content_limits accessors read / write the member of their own name')
+    CL = 'cppcms::http::content_limits'
+    KB = {'content_length_limit': 1024, 'multipart_form_data_limit': 1024, 'file_in_memory_limit': 1, 'uploads_path': None}
+    cl = [f for f in P.fns.values() if f.kind == 'ctor' and f.record == CL and f.body is not None and len(f.params) == 1 and 'cached_settings' in (f.params[0].get('t') if isinstance(f.params[0].get('t'), str) else f.types[f.params[0]['t']])]
+    ctx.require(len(cl) == 1, 'C12.R9: content_limits(cached_settings const &) not found')
+    f = cl[0]
+    seen = set()
+    for x in f.d.get('inits', []):
+        fld = model.strip_targs(x.get('field', '')).rsplit('::', 1)[-1]
+        name = fld.rstrip('_')
+        if name not in KB:
+            continue
+        seen.add(name)
+        e = f.strip(x['n'])
+        srcs = [r_ for r_ in f.subtree_refs(e) if r_.startswith('f:') and 'cached_security::' in r_]
+        ctx.check(srcs == ['f:cppcms::impl::cached_settings::cached_security::' + name] or [s_.rsplit('::', 1)[-1] for s_ in srcs] == [name], R9, 'content_limits(settings):%s:from-its-own-entry' % name,
+                  'the limit is taken from %s' % (srcs,), f.loc(x['n']))
+        if KB[name] is None:
+            continue
+        n_ = f.N(e)
+        scale = 1
+        shape = True
+        if n_['k'] == 'BinaryOperator' and n_.get('op') == '*':
+            cs = [f.const_value(c_) for c_ in n_['ch']]
+            shape = sum(1 for c_ in cs if c_ is not None) == 1
+            scale = [c_ for c_ in cs if c_ is not None][0] if shape else None
+        elif n_['k'] == 'BinaryOperator' and n_.get('op') == '<<' and f.const_value(n_['ch'][1]) is not None:
+            scale = 1 << f.const_value(n_['ch'][1])
+        elif f.ref_of(e) is None:
+            shape = False
+        ctx.check(shape and scale == KB[name], R9, 'content_limits(settings):%s:scaled-by-%d' % (name, KB[name]),
+                  'the configured value is scaled by %r, its unit makes that %d: the limit enforced is not the one configured' % (scale, KB[name]), f.loc(x['n']))
+    ctx.check(seen == set(KB), R9, 'content_limits(settings):all-limits-initialised', 'not initialised from the settings: %s' % sorted(set(KB) - seen), f.where)
+    cs_ = [g for g in P.fns.values() if g.kind == 'ctor' and (g.record or '').endswith('cached_settings::cached_security') and g.body is not None and len(g.params) == 1 and not g.d.get('implicit')]
+    cs_ = [g for g in cs_ if [i for i in g.calls() if q.short_of(g.callee(i) or '') == 'get']]
+    ctx.require(len(cs_) == 1, 'C12.R9: cached_security(json::value const &) not found (%d)' % len(cs_))
+    g = cs_[0]
+    got = {}
+    for w in g.all_nodes():
+        n_ = g.N(w)
+        if n_['k'] in ('BinaryOperator', 'CXXOperatorCallExpr') and n_.get('op') == '=' and len(n_['ch']) >= 2:
+            ch = n_['ch'][-2:]
+            t = (g.ref_of(ch[0]) or '').rsplit('::', 1)[-1]
+            if t in KB:
+                got.setdefault(t, []).append([g.N(j).get('s') for c_ in g.walk(ch[1]) if g.N(c_)['k'] in ('CXXMemberCallExpr', 'CallExpr') and q.short_of(g.callee(c_) or '') == 'get' and g.args(c_)
+                                                 for j in g.walk(g.args(c_)[0]) if g.N(j)['k'] == 'StringLiteral'][:1])
+    for name in sorted(KB):
+        ctx.check(got.get(name) == [['security.' + name]], R9, 'cached_security:%s:read-under-its-own-key' % name, 'the entry is read from %r' % (got.get(name),), g.where)
+    for name in sorted(KB):
+        acc = [h for h in P.fns.values() if h.record == CL and h.short == name and h.body is not None]
+        ctx.check(len(acc) == 2, R9, 'content_limits::%s:getter-and-setter' % name, 'found %d accessors' % len(acc), f.where)
+        for h in acc:
+            own = 'f:%s::%s_' % (CL, name)
+            if len(h.params) == 0:
+                vals = [r2_ for r_ in h.returns() if h.ret_value(r_) is not None for r2_ in h.subtree_refs(h.ret_value(r_)) if r2_.startswith('f:')]
+                ctx.check(vals == [own], R9, 'content_limits::%s():returns-own-member' % name, 'returns %s' % (vals,), h.where)
+            else:
+                ws = [(w_, fl_) for fl_ in ('content_length_limit_', 'multipart_form_data_limit_', 'file_in_memory_limit_', 'uploads_path_') for w_ in q.field_writes(h, 'content_limits::' + fl_)]
+                okw = len(ws) == 1 and ws[0][1] == name + '_' and q.param_by_index(h, 0) in h.subtree_refs(ws[0][0])
+                ctx.check(okw, R9, 'content_limits::%s(v):writes-own-member-from-v' % name, 'writes %s' % ([x_[1] for x_ in ws],), h.where)
+    ctx.floor(R9, 20)
     # ---------------- R8 the upload stream buffer hands characters out as int_type without sign extension
     R8 = ctx.rule('C12.R8', 'http::impl::file_buffer (the stream buffer uploads are read back through): underflow / uflow / pbackfail return a character only through traits_type::to_int_type or an unsigned char '
                             'conversion - a plain char converted to int makes byte 0xFF equal to EOF and cuts the content short at a refill boundary')
